@@ -36,6 +36,19 @@ def main():
         cases.append({"op": "eq", "l": a, "r": a})
         cases.append({"op": "hash_eq", "l": a, "r": b})
         groups.append((start, a, b))
+    # equal quantities in ONE unit whose magnitudes are written differently (1, 1.0, Decimal('1.0'), Decimal('1.000'); 2.5 and Decimal('2.50');
+    # 0, 0.0, -0.0; 1000 and 1E+3): they compare equal, so they hash alike
+    SAME = [(["int", "1", "1"], ["float", "1", "1"]), (["int", "1", "1"], ["dec", "1", "1"]), (["float", "5", "2"], ["dec", "5", "2"]), (["int", "0", "1"], ["float", "0", "1"]),
+            (["int", "1000", "1"], ["dec", "1000", "1"]), (["float", "1000", "1"], ["int", "1000", "1"]), (["int", "-7", "1"], ["float", "-7", "1"]), (["dec", "3", "1"], ["float", "3", "1"])]
+    for fam in FAMILIES[:6]:
+        for u in fam[:3]:
+            for ma, mb in SAME:
+                a = {"t": "qty", "m": ma, "u": u}; b = {"t": "qty", "m": mb, "u": u}
+                start = len(cases)
+                for op in ("eq", "ne", "lt", "le", "gt", "ge"):
+                    cases.append({"op": op, "l": a, "r": b}); cases.append({"op": op, "l": b, "r": a})
+                cases.append({"op": "eq", "l": a, "r": a}); cases.append({"op": "hash_eq", "l": a, "r": b})
+                groups.append((start, a, b))
     # ---- coherence on offset scales (zero and equal readings included) and after an equivalence has been declared twice
     def table(payload, pairs, tag, value_of=None, exact=False, tie=Fraction(1, 10**6)):
         ops = ("eq", "ne", "lt", "le", "gt", "ge")
